@@ -1,12 +1,15 @@
 package main
 
-// Concurrency layer: monitors (lock-protected invariants), guarded-field access obligations,
-// channel message invariants. Filled in by the property layer.
+// Concurrency layer (DESIGN.md section 3): lock domains of shared fields, access obligations
+// (`lock.guard`), monitor rule (havoc + invariant on acquire, invariant obligation on release),
+// implicit "policy lock held" precondition of policy-domain code.
 
 import (
+	"fmt"
 	"go/ast"
 	"go/token"
 	"go/types"
+	"strings"
 )
 
 type monitor interface {
@@ -14,6 +17,376 @@ type monitor interface {
 	release(vc *VC, st *State, ref string, write bool, pos token.Pos)
 }
 
-func (vc *VC) guardCheck(st *State, p place, sub string, write bool)            {}
-func (vc *VC) guardCheckMap(st *State, m string, mt *types.Map, write bool)      {}
-func (vc *VC) chanMsgInv(st *State, ch ast.Expr, v Val, t types.Type)            {}
+// guard domains
+const (
+	gFree      = "free"      // not shared, or ordered by other means (stated in the evidence)
+	gImmutable = "immutable" // written only while the object is fresh (before publication)
+	gShard     = "shard"     // shard RBMutex: R for reads, W for writes; or fresh; Entry.value also when owned
+	gPolicy    = "policy"    // Store.policyMu for reads and writes; or fresh
+	gAtomic    = "atomic"    // only through sync/atomic operations (or fresh)
+	gAtomicSW  = "atomic-sw" // atomic; stores additionally need the shard write lock (or fresh)
+	gGroup     = "group"     // Group.mu
+)
+
+// guardTable: "Owner.field" -> domain. Taken from the comments in entry.go / store.go (DESIGN.md C19).
+var guardTable = map[string]string{
+	"Entry.key": gImmutable, "Entry.value": gShard, "Entry.meta": gPolicy, "Entry.weight": gAtomicSW,
+	"Entry.policyWeight": gPolicy, "Entry.expire": gAtomicSW, "Entry.flag": gPolicy,
+	"Shard.hashmap": gShard, "Shard.dookeeper": gImmutable, "Shard.group": gImmutable, "Shard.vgroup": gImmutable,
+	"Shard.counter": gShard, "Shard.mu": gImmutable, "Shard.closed": gShard,
+	"bf.Bloomfilter.Filter": gShard, "bf.Bloomfilter.FalsePositiveRate": gShard, "bf.Bloomfilter.K": gShard,
+	"bf.Bloomfilter.M": gShard, "bf.Bloomfilter.Capacity": gShard,
+	"List.root": gPolicy, "List.len": gPolicy, "List.count": gPolicy, "List.capacity": gPolicy, "List.listType": gImmutable,
+	"Slru.probation": gImmutable, "Slru.protected": gImmutable, "Slru.maxsize": gImmutable,
+	"TinyLfu.window": gImmutable, "TinyLfu.slru": gImmutable, "TinyLfu.sketch": gImmutable, "TinyLfu.hasher": gImmutable,
+	"TinyLfu.capacity": gImmutable, "TinyLfu.weightedSize": gPolicy, "TinyLfu.misses": gImmutable, "TinyLfu.hits": gImmutable,
+	"TinyLfu.hitsInSample": gPolicy, "TinyLfu.missesInSample": gPolicy, "TinyLfu.hr": gPolicy, "TinyLfu.step": gPolicy,
+	"TinyLfu.amount": gPolicy, "TinyLfu.removeCallback": gImmutable,
+	"CountMinSketch.Table": gPolicy, "CountMinSketch.Additions": gPolicy, "CountMinSketch.SampleSize": gPolicy,
+	"CountMinSketch.BlockMask": gPolicy,
+	"TimerWheel.clock": gImmutable, "TimerWheel.buckets": gImmutable, "TimerWheel.spans": gImmutable,
+	"TimerWheel.shift": gImmutable, "TimerWheel.wheel": gImmutable, "TimerWheel.nanos": gPolicy,
+	"Store.entryPool": gImmutable, "Store.writeChan": gImmutable, "Store.writeBuffer": gPolicy, "Store.hasher": gImmutable,
+	"Store.removalListener": gImmutable, "Store.removalCallback": gImmutable, "Store.kvBuilder": gImmutable,
+	"Store.policy": gImmutable, "Store.timerwheel": gImmutable, "Store.stripedBuffer": gImmutable, "Store.mask": gImmutable,
+	"Store.cost": gImmutable, "Store.shards": gImmutable, "Store.cap": gImmutable, "Store.shardCount": gImmutable,
+	"Store.policyMu": gFree, "Store.doorkeeper": gImmutable, "Store.closed": gPolicy, "Store.secondaryCache": gImmutable,
+	"Store.secondaryCacheBuf": gImmutable, "Store.probability": gImmutable, "Store.rg": gImmutable, "Store.ctx": gImmutable,
+	"Store.cancel": gImmutable, "Store.maintenanceTicker": gPolicy, "Store.waitChan": gImmutable,
+	"LoadingStore.loader": gImmutable, "LoadingStore.Store": gImmutable,
+	"clock.Clock.now": gAtomic, "clock.Clock.Start": gFree,
+	"Buffer.head": gAtomic, "Buffer.tail": gAtomic, "Buffer.returned": gAtomic, "Buffer.policyBuffers": gImmutable,
+	"Buffer.buffer": gAtomic, "PolicyBuffers.Returned": gFree,
+	"UnsignedCounter.stripes": gImmutable, "UnsignedCounter.mask": gImmutable, "ptoken.idx": gFree, "ptoken.pad": gFree,
+	"Group.m": gGroup, "Group.mu": gFree, "Group.callPool": gFree,
+	"call.val": gFree, "call.err": gFree, "call.wg": gFree, "call.dups": gAtomic,
+}
+
+// types whose every field must carry an annotation (completeness obligation of C19)
+var guardedOwners = map[string]bool{"Entry": true, "Shard": true, "List": true, "Slru": true, "TinyLfu": true,
+	"CountMinSketch": true, "TimerWheel": true, "Store": true, "LoadingStore": true, "Buffer": true, "Group": true, "call": true,
+	"UnsignedCounter": true, "clock.Clock": true, "bf.Bloomfilter": true}
+
+func guardOf(leaf string) (rule string, known bool, owner string) {
+	// leaf: Owner.field[.sub...][#arr|#len]
+	l := leaf
+	if i := strings.Index(l, "#"); i >= 0 {
+		l = l[:i]
+	}
+	parts := strings.Split(l, ".")
+	// owner may be "pkg.Type"
+	for n := 2; n <= 3 && n <= len(parts); n++ {
+		k := strings.Join(parts[:n], ".")
+		if r, ok := guardTable[k]; ok {
+			return r, true, strings.Join(parts[:n-1], ".")
+		}
+	}
+	own := parts[0]
+	if len(parts) > 2 && guardedOwners[parts[0]+"."+parts[1]] {
+		own = parts[0] + "." + parts[1]
+	}
+	return "", false, own
+}
+
+func (vc *VC) anyHeld(st *State, id string, read bool) string {
+	w := vc.heapGet(st, "anyW<"+id+">", SBool)
+	if !read {
+		return w
+	}
+	return or(w, vc.heapGet(st, "anyR<"+id+">", SBool))
+}
+
+// rootRef strips interior-object address functions: (addr.List.root l) -> l
+func rootRef(ref string) string {
+	for strings.HasPrefix(ref, "(addr.") || strings.HasPrefix(ref, "(|addr.") {
+		i := strings.Index(ref, " ")
+		if i < 0 {
+			break
+		}
+		ref = strings.TrimSuffix(ref[i+1:], ")")
+	}
+	return ref
+}
+
+// freshRef: the object did not exist when the function under verification was entered.
+func (vc *VC) freshRef(ref string) string {
+	if vc.entry == nil {
+		return "false"
+	}
+	al := vc.heapGet(vc.entry, "alloc", ArrSort(SRef, SBool))
+	return not(sel(al, rootRef(ref)))
+}
+
+func (vc *VC) guardOblige(st *State, goal, what string) {
+	if vc.dry > 0 {
+		return
+	}
+	key := st.pc + "|" + goal
+	if vc.guardSeen == nil {
+		vc.guardSeen = map[string]bool{}
+	}
+	if vc.guardSeen[key] {
+		return
+	}
+	vc.guardSeen[key] = true
+	vc.oblige(st, "lock", "guard", vc.curPos, goal, what)
+}
+
+func (vc *VC) guardCheck(st *State, p place, sub string, write bool) {
+	if p.kind != pHeap {
+		return
+	}
+	leaf := p.owner + p.path + sub
+	rule, known, owner := guardOf(leaf)
+	if !known {
+		if guardedOwners[owner] {
+			panic(unsupported("field %s of a shared structure has no lock-domain annotation (C19 completeness)", leaf))
+		}
+		return
+	}
+	mode := "read"
+	if write {
+		mode = "write"
+	}
+	fresh := vc.freshRef(p.ref)
+	var goal string
+	switch rule {
+	case gFree:
+		return
+	case gImmutable:
+		if !write {
+			return
+		}
+		goal = fresh
+	case gShard:
+		goal = or(fresh, vc.anyHeld(st, "RBMutex", !write))
+		if leaf == "Entry.value" && !write {
+			goal = or(goal, sel(vc.heapGet(st, "gh.owned", ArrSort(SRef, SBool)), p.ref))
+		}
+	case gPolicy:
+		goal = or(fresh, vc.anyHeld(st, "Store.policyMu", false))
+	case gAtomic, gAtomicSW:
+		if vc.inAtomic == 0 {
+			goal = fresh
+		} else if rule == gAtomicSW && write {
+			goal = or(fresh, vc.anyHeld(st, "RBMutex", false))
+		} else {
+			return
+		}
+	case gGroup:
+		goal = or(fresh, vc.anyHeld(st, "Group.mu", false))
+	}
+	vc.guardOblige(st, goal, fmt.Sprintf("%s of %s requires its lock domain (%s)", mode, leaf, rule))
+}
+
+func (vc *VC) guardCheckMap(st *State, m string, mt *types.Map, write bool) {
+	k := typeKey(mt)
+	var id string
+	switch {
+	case strings.HasSuffix(k, "]*Entry"):
+		id = "RBMutex"
+	case strings.HasSuffix(k, "]*call"):
+		id = "Group.mu"
+		write = true
+	default:
+		return
+	}
+	mode := "read"
+	if write {
+		mode = "write"
+	}
+	goal := or(vc.freshRef(m), vc.anyHeld(st, id, !write))
+	vc.guardOblige(st, goal, fmt.Sprintf("%s of map %s requires %s", mode, k, id))
+}
+
+func (vc *VC) chanMsgInv(st *State, ch ast.Expr, v Val, t types.Type) {}
+
+// ---- monitor rule -------------------------------------------------------------------------------
+
+// heaps protected by each lock kind (havoc'd when the lock is acquired: other goroutines may have
+// changed them since this goroutine last held the lock)
+var shardHeaps = []string{"Shard.hashmap", "Shard.closed", "Shard.counter", "Entry.value", "Entry.weight", "Entry.expire",
+	"mapdom<map[K]*Entry>", "mapval<map[K]*Entry>", "maplen<map[K]*Entry>",
+	"bf.Bloomfilter.Filter#arr", "bf.Bloomfilter.Filter#len", "bf.Bloomfilter.K", "bf.Bloomfilter.M", "bf.Bloomfilter.Capacity"}
+
+var policyHeaps = []string{"Entry.meta.prev", "Entry.meta.next", "Entry.meta.wheelPrev", "Entry.meta.wheelNext",
+	"Entry.flag.Flags", "Entry.policyWeight", "List.len", "List.count", "List.capacity",
+	"TinyLfu.weightedSize", "TinyLfu.hitsInSample", "TinyLfu.missesInSample", "TinyLfu.hr", "TinyLfu.step", "TinyLfu.amount",
+	"CountMinSketch.Table#arr", "CountMinSketch.Table#len", "CountMinSketch.Additions", "CountMinSketch.SampleSize",
+	"CountMinSketch.BlockMask", "TimerWheel.nanos", "Store.closed", "Store.writeBuffer#arr", "Store.writeBuffer#len",
+	"Store.maintenanceTicker"}
+
+var groupHeaps = []string{"Group.m", "mapdom<map[K]*call>", "mapval<map[K]*call>", "maplen<map[K]*call>"}
+
+// ghost heaps that belong to a lock domain are declared in contract files by name prefix:
+// gh_sh_* (shard), gh_po_* (policy), gh_gr_* (group).
+func (vc *VC) ghostHeapsOf(prefix string) []string {
+	var out []string
+	for fn := range vc.prog.ghost {
+		if hasPfx(fn.Name(), "gh_"+prefix+"_") {
+			n, _, _, _ := vc.ghostHeap(fn)
+			out = append(out, n)
+		}
+	}
+	return out
+}
+
+// lockAcquired / lockReleased are called by lockOp after the per-instance bookkeeping.
+// owner: the expression of the object the lock belongs to (shard for shard.mu, store for s.policyMu,
+// group for g.mu), "" when it cannot be determined syntactically.
+func (vc *VC) lockAcquired(st *State, id string, write bool, ownerRef string, pos token.Pos) {
+	var heaps []string
+	var inv string
+	switch id {
+	case "RBMutex":
+		heaps = append(append([]string{}, shardHeaps...), vc.ghostHeapsOf("sh")...)
+		inv = "moninv_Shard"
+	case "Store.policyMu":
+		heaps = append(append([]string{}, policyHeaps...), vc.ghostHeapsOf("po")...)
+		inv = "moninv_Store"
+	case "Group.mu":
+		heaps = append(append([]string{}, groupHeaps...), vc.ghostHeapsOf("gr")...)
+		inv = "moninv_Group"
+	}
+	// Re-acquisition: state protected by the lock may have been changed by other goroutines. The very
+	// first acquisition in a function needs no havoc (the pre-state is arbitrary already), but havoc is
+	// harmless there; it is skipped only to keep old() of entry values meaningful.
+	if vc.acquired == nil {
+		vc.acquired = map[string]bool{}
+	}
+	if vc.acquired[id] {
+		for _, h := range heaps {
+			vc.havocHeap(st, h)
+			delete(vc.written, h)
+		}
+	}
+	vc.acquired[id] = true
+	vc.monitorInv(st, inv, ownerRef, false, pos)
+}
+
+func (vc *VC) lockReleased(st *State, id string, write bool, ownerRef string, pos token.Pos) {
+	if !write {
+		return
+	}
+	inv := map[string]string{"RBMutex": "moninv_Shard", "Store.policyMu": "moninv_Store", "Group.mu": "moninv_Group"}[id]
+	vc.monitorInv(st, inv, ownerRef, true, pos)
+}
+
+func (vc *VC) monitorInv(st *State, name string, ownerRef string, check bool, pos token.Pos) {
+	if name == "" || ownerRef == "" {
+		return
+	}
+	var fi *FuncInfo
+	for _, f := range vc.prog.pure {
+		if f.Obj.Name() == name {
+			fi = f
+		}
+	}
+	if fi == nil {
+		return
+	}
+	if vc.fn != nil && vc.fn.Spec != nil && vc.fn.Spec.Flags["no_monitor"] {
+		return
+	}
+	saveMode, saveOld := vc.specMode, vc.oldState
+	vc.specMode = true
+	if vc.oldState == nil {
+		vc.oldState = st
+	}
+	t := vc.evalPure(st, fi, []Val{sc(ownerRef, SRef)}, nil).(*Scalar).T
+	vc.specMode, vc.oldState = saveMode, saveOld
+	if check {
+		if vc.dry == 0 {
+			for i, c := range splitConj(t) {
+				vc.oblige(st, "monitor.keep", fmt.Sprintf("%s.%d", strings.TrimPrefix(name, "moninv_"), i+1), pos, c, "monitor invariant "+name+" must hold when the write lock is released")
+			}
+		}
+	} else {
+		save := vc.curLabel
+		vc.curLabel = "moninv." + name
+		vc.assume(st, t)
+		vc.curLabel = save
+	}
+}
+
+// splitConj splits a top-level (and a b c) term.
+func splitConj(t string) []string {
+	if !strings.HasPrefix(t, "(and ") {
+		return []string{t}
+	}
+	body := t[5 : len(t)-1]
+	var out []string
+	d, start := 0, 0
+	inBar := false
+	for i := 0; i < len(body); i++ {
+		switch body[i] {
+		case '|':
+			inBar = !inBar
+		case '(':
+			if !inBar {
+				d++
+			}
+		case ')':
+			if !inBar {
+				d--
+			}
+		case ' ':
+			if d == 0 && !inBar {
+				if i > start {
+					out = append(out, body[start:i])
+				}
+				start = i + 1
+			}
+		}
+	}
+	if start < len(body) {
+		out = append(out, body[start:])
+	}
+	return out
+}
+
+// ---- policy-domain code ---------------------------------------------------------------------------
+
+var policyFiles = map[string]bool{"list.go": true, "slru.go": true, "tlfu.go": true, "timerwheel.go": true, "sketch.go": true}
+
+// policyDomainFunc: methods of the policy data structures run with the policy lock held; this is an
+// implicit precondition of their VCs and an obligation at every call from outside the domain.
+func (p *Program) policyDomainFunc(fi *FuncInfo) bool {
+	if fi == nil || fi.Decl == nil || fi.Decl.Recv == nil || fi.IsSpecFile {
+		return false
+	}
+	if fi.Spec != nil && fi.Spec.Flags["no_policy_lock"] {
+		return false
+	}
+	f := p.fset.Position(fi.Decl.Pos()).Filename
+	if i := strings.LastIndex(f, "/"); i >= 0 {
+		f = f[i+1:]
+	}
+	if !policyFiles[f] || !strings.HasSuffix(fi.Pkg.PkgPath, "/internal") {
+		return false
+	}
+	return !strings.HasPrefix(fi.Decl.Name.Name, "New")
+}
+
+// ownerOfLockExpr: for x.mu / x.policyMu returns the value of x.
+func (vc *VC) ownerOfLockExpr(st *State, e ast.Expr) string {
+	se, ok := unparen(e).(*ast.SelectorExpr)
+	if !ok {
+		return ""
+	}
+	t := vc.info.TypeOf(se.X)
+	if t == nil {
+		return ""
+	}
+	if _, isPtr := t.Underlying().(*types.Pointer); !isPtr {
+		return ""
+	}
+	save := vc.specMode
+	vc.specMode = true // no nil/lock obligations for re-evaluating the owner expression
+	v := vc.eval(st, se.X)
+	vc.specMode = save
+	if s, ok := v.(*Scalar); ok && s.S == SRef {
+		return s.T
+	}
+	return ""
+}
